@@ -595,6 +595,10 @@ func (g *Gen) heapsOfAddr(a ssa.Value) []string {
 		}
 		return []string{fieldHeapName(typeKey(st), f.Name())}
 	case *ssa.IndexAddr:
+		if _, ok := pt.Elem().Underlying().(*types.Struct); ok {
+			// element object of a slice of struct values: its field heaps
+			return g.structHeaps(pt.Elem())
+		}
 		return []string{elemHeapName(pt.Elem())}
 	}
 	return g.heapsOfPointee(pt.Elem())
@@ -1037,7 +1041,7 @@ func (g *Gen) unop(x *ssa.UnOp) {
 		avail := g.define("ravail", "Bool", and(not(sx("=", ch.T, "0")), sx("<", cur, n)))
 		es := g.sortOf(et)
 		v := g.freshVal("recv", et)
-		if _, isStruct := et.Underlying().(*types.Struct); !isStruct && es != "" {
+		if es != "" {
 			boxed := sx("select", sx("select", g.heap(g.st, "ChanV", "(Array Int (Array Int Int))"), ch.T), cur)
 			g.assume(implies(avail, sx("=", v.T, g.unboxAny(boxed, es))))
 		}
@@ -1153,8 +1157,21 @@ func (g *Gen) indexAddr(x *ssa.IndexAddr) {
 	switch u := x.X.Type().Underlying().(type) {
 	case *types.Slice:
 		g.check("idx", srcName(x.X), and(sx("<=", "0", i.T), sx("<", i.T, sx("s-len", v.T))), "slice index out of range")
-		if _, ok := u.Elem().Underlying().(*types.Struct); ok {
-			g.bail("slice of struct values")
+		if st, ok := u.Elem().Underlying().(*types.Struct); ok {
+			// Elements of a slice of struct values are objects of their own, laid out
+			// behind the backing array: element k of array a is the object selem(a, k)
+			// = a + 1 + k (allocations are 2^20 apart, sub-objects live below their
+			// owner, so these references are free). Only flat structs (no embedded
+			// struct or array fields, which would need sub-objects) are supported.
+			for fi := 0; fi < st.NumFields(); fi++ {
+				switch st.Field(fi).Type().Underlying().(type) {
+				case *types.Struct, *types.Array:
+					g.bail("slice of struct values with nested struct/array fields")
+				}
+			}
+			ref := sx("selem", sx("s-arr", v.T), sx("idx", sx("s-off", v.T), i.T))
+			g.vals[x] = Val{T: g.define("selem", "Int", ref), S: "Int", G: x.Type()}
+			return
 		}
 		g.vals[x] = Val{Loc: &Loc{Kind: LElem, Heap: elemHeapName(u.Elem()), Base: sx("s-arr", v.T),
 			Idx: sx("idx", sx("s-off", v.T), i.T), S: g.sortOf(u.Elem()), G: u.Elem()}, G: x.Type()}
@@ -1186,6 +1203,29 @@ func (g *Gen) makeSlice(x *ssa.MakeSlice) {
 	et := x.Type().Underlying().(*types.Slice).Elem()
 	g.check("lib-pre", "makeslice", and(sx("<=", "0", l.T), sx("<=", l.T, c.T), sx("<=", c.T, "4611686018427387904")), "make: length negative or above capacity")
 	r := g.newRef(g.st)
+	if st, ok := et.Underlying().(*types.Struct); ok {
+		// slice of struct values: every element object starts zeroed (see indexAddr);
+		// modelling bound: fewer than 2^20 - 1 elements
+		g.assume(sx("<", c.T, "1048575"))
+		for _, h := range g.structHeapsSorted(et) {
+			hh := g.heap(g.st, h.name, "(Array Int "+h.sort+")")
+			nh := g.declConst(g.fresh(h.name+"@mk"), "(Array Int "+h.sort+")")
+			var z string
+			for fi := 0; fi < st.NumFields(); fi++ {
+				if fieldHeapName(typeKey(et), st.Field(fi).Name()) == h.name {
+					z = g.zero(st.Field(fi).Type())
+				}
+			}
+			if z == "" {
+				g.bail("slice of struct values: unexpected heap %s", h.name)
+			}
+			g.assumeRaw(fmt.Sprintf("(forall ((k Int)) (! (=> (and (<= 0 k) (< k %s)) (= (select %s (selem %s k)) %s)) :pattern ((select %s (selem %s k)))))", c.T, nh, r, z, nh, r))
+			g.assumeRaw(fmt.Sprintf("(forall ((q Int)) (! (=> (or (<= q %s) (> q (+ %s 1 %s))) (= (select %s q) (select %s q))) :pattern ((select %s q))))", r, r, c.T, nh, hh, nh))
+			g.setHeap(g.st, h.name, "(Array Int "+h.sort+")", nh)
+		}
+		g.set(x, Val{T: sx("mk-slice", r, "0", l.T, c.T), S: "Slice", G: x.Type()})
+		return
+	}
 	hn := elemHeapName(et)
 	es := g.sortOf(et)
 	hs := "(Array Int (Array Int " + es + "))"
